@@ -433,6 +433,8 @@ def mp(name, module, what):
 
 PROPS['C16'] = {
     'verus': ['u_pwsel', 'u_merge', 'u_pweval'],
+    # units of the other properties: only their panic-class obligations (assert!, index/overflow/division, exec-callee preconditions) count here
+    'verus_panic_only': ['u_approx', 'u_segment', 'u_linear', 'u_spline', 'u_polycalc', 'u_log', 'u_ops', 'u_polyeval'],
     'kani': {
         'quick': [kset('c16',
                        hs('c02_direct_n', 'piecewise', [1, 2, 3, 4, 9], 'segments N = {n}; every f64 argument', PW_EVAL) +
@@ -459,8 +461,9 @@ PROPS['C16'] = {
                    'evaluate_v. NaN clause: after any query, NaN included, the evaluator invariant still holds and every non-NaN query is answered like direct '
                    'evaluation. The documented rejections are the only should_panic harnesses.',
     'assumptions': [PARAM, FM_ORD, 'bounded: N <= 4 segments for the Kani part; history length unbounded via the inductive invariant',
-                    'panic-freedom of the numeric kernels on finite input is discharged by the Verus units of C01, C04, C06, C07, C08, C09, C14 and the Kani harnesses of the other properties; '
-                    'this check re-runs only the evaluation entry points and the documented rejections'],
+                    'panic-freedom of the numeric kernels, the approx impls and the Segment operations on finite input: the Verus units of C01, C04, C06, C07, C08, C09, C11, C14, C17 are re-run here and their '
+                    'panic-class obligations (assert!, index/overflow/division, preconditions of exec callees) are counted; their postconditions belong to those properties and are not counted here. '
+                    'Iterator-based operations (Piecewise *, *=, neg, translate, derivative, integral, linear, constrained_spline) are covered for panics only by the Kani harnesses of their own properties'],
 }
 PROPS['C16']['kani']['thorough'] = PROPS['C16']['kani']['quick']
 
